@@ -156,6 +156,10 @@ Effect(st, R) ==
          LET S == {c.id : c \in {x \in cells : Holds(st.pred, x)}} IN
          [del |-> S, new |-> S, val |-> [i \in S |-> EvalExpr(st.setexpr, CellOf(R, i))], mustFail |-> FALSE,
           unk |-> {c.id : c \in {x \in cells : Eval(st.pred, x) = "N"}}]
+    [] op = "merge_insert" /\ "in_place" \in DOMAIN st ->
+         \* source with only some of the columns: matched rows are rewritten in place, nothing moves
+         [del |-> {}, new |-> {}, val |-> <<>>, mustFail |-> FALSE, unk |-> {},
+          inplace |-> [i \in SrcIds(st) \cap ids |-> SrcVal(st, i)]]
     [] op = "merge_insert" ->
          LET m == SrcIds(st) \cap ids
              matched == IF "matched" \in DOMAIN st THEN st.matched ELSE "update_all"
@@ -191,7 +195,7 @@ Judge(e) ==
                           "create_index", "optimize_indices"}
       \* keys the operation selected at its read version
       eff == Effect(st, R)
-      sel == eff.del
+      sel == eff.del \cup (IF "inplace" \in DOMAIN eff THEN DOMAIN eff.inplace ELSE {})
       between == UNION {touched[k] : k \in {x \in DOMAIN touched : x > rv /\ x <= Lv}}
   IN
   IF IsErr(P) THEN {"LatestUnreadable"}
@@ -211,7 +215,18 @@ Judge(e) ==
           (IF sel \cap between # {} THEN {"NoLostUpdate"} ELSE {})
           \cup (LET dObs == PIds(L) \ {r.id : r \in {x \in PRows(P) : x.fid \in PFragIds(L)}}
                     nObs == {r.id : r \in {x \in PRows(P) : x.fid \notin PFragIds(L)}}
-                IN IF dObs = {} /\ nObs = {} THEN (IF PRows(P) = PRows(L) THEN {} ELSE {"SerialEquivalence"})
+                IN IF "inplace" \in DOMAIN eff
+                   THEN \* rows keep fragment, offset, row id and creation version; only the value (and the
+                        \* last-updated version) of the selected rows changes
+                        (IF /\ P.v = Lv + 1
+                            /\ PFragIds(P) = PFragIds(L)
+                            /\ \A fid \in PFragIds(L) : PFrag(P, fid).phys = PFrag(L, fid).phys /\ PFrag(P, fid).del = PFrag(L, fid).del
+                            /\ {[fid |-> r.fid, off |-> r.off, id |-> r.id, rid |-> r.rid, cre |-> r.cre] : r \in PRows(P)}
+                                 = {[fid |-> r.fid, off |-> r.off, id |-> r.id, rid |-> r.rid, cre |-> r.cre] : r \in PRows(L)}
+                            /\ \A r \in PRows(L) : r.id \notin DOMAIN eff.inplace => r \in PRows(P)
+                            /\ \A r \in PRows(P) : r.id \in DOMAIN eff.inplace => r.val = eff.inplace[r.id]
+                         THEN {} ELSE {"SerialEquivalence"})
+                   ELSE IF dObs = {} /\ nObs = {} THEN (IF PRows(P) = PRows(L) THEN {} ELSE {"SerialEquivalence"})
                    ELSE IF DmlRel(L, P, dObs, nObs) THEN {} ELSE {"SerialEquivalence"})
           \cup (IF P.stable /\ (\E r \in PRows(L), q \in PRows(P) : r.id = q.id /\ r.rid # q.rid) THEN {"RowIdStable"} ELSE {})
      [] op = "compact" ->
@@ -245,6 +260,9 @@ SerialAfter(e, R) ==
   IF e.res # "ok" THEN serial
   ELSE CASE op \in {"create", "overwrite"} -> RowsSet(StepRows(st))
          [] op \in {"append", "commit"} -> serial \cup RowsSet(StepRows(st))
+         [] op = "merge_insert" /\ "in_place" \in DOMAIN st ->
+              {r \in serial : r.id \notin DOMAIN eff.inplace}
+                \cup {[id |-> i, val |-> eff.inplace[i]] : i \in (DOMAIN eff.inplace) \cap {r.id : r \in serial}}
          [] op \in {"delete", "update", "merge_insert"} ->
               {r \in serial : r.id \notin eff.del}
                 \cup {[id |-> i, val |-> eff.val[i]] : i \in {x \in eff.new : x \notin eff.del \/ x \in {r.id : r \in serial}}}
@@ -260,6 +278,8 @@ TruthAfter(e, R, P) ==
   IF e.res # "ok" THEN truth
   ELSE CASE op \in {"create", "overwrite"} -> [i \in PIds(P) |-> [cre |-> nv, upd |-> nv]]
          [] op \in {"append", "commit"} -> [i \in PIds(P) |-> IF i \in DOMAIN truth THEN truth[i] ELSE [cre |-> nv, upd |-> nv]]
+         [] op = "merge_insert" /\ "in_place" \in DOMAIN st ->
+              [i \in DOMAIN truth |-> IF i \in DOMAIN eff.inplace THEN [truth[i] EXCEPT !.upd = nv] ELSE truth[i]]
          [] op \in {"delete", "update", "merge_insert"} ->
               [i \in ((DOMAIN truth) \ (eff.del \ eff.new)) \cup eff.new |->
                  IF i \in eff.new
@@ -270,7 +290,9 @@ TruthAfter(e, R, P) ==
 
 TouchedBy(e, R) ==
   IF e.res # "ok" THEN {}
-  ELSE IF e.step.op \in {"delete", "update", "merge_insert"} THEN Effect(e.step, R).del ELSE {}
+  ELSE IF e.step.op \in {"delete", "update", "merge_insert"}
+       THEN LET eff == Effect(e.step, R) IN eff.del \cup (IF "inplace" \in DOMAIN eff THEN DOMAIN eff.inplace ELSE {})
+       ELSE {}
 
 \* invariants that need the ghosts (evaluated on the post-state)
 GhostJudge(e, P, serial2, truth2, newIssued) ==
@@ -384,6 +406,8 @@ JudgeTake(e, L) ==
 \* C08: after a cleanup every version the policy retains (and the latest, tagged ones, and versions not older than the
 \* handle the cleanup ran through) reads exactly as before; removed ones are only policy-selected ones
 JudgeCleanup(e) ==
+  IF "hv" \notin DOMAIN e.extra THEN {}     \* the cleanup did not run (its handle's version no longer exists)
+  ELSE
   LET st == e.step
       x == e.extra
       tagged == {x.tags[i][2] : i \in 1..Len(x.tags)}
@@ -491,7 +515,8 @@ Step(e) ==
                     ELSE IF op \in {"take", "take_probe"} THEN JudgeTake(e, L)
                     ELSE IF op = "copy_reread" THEN JudgeCopy(e)
                     ELSE IF op = "cleanup" THEN JudgeCleanup(e)
-                    ELSE IF op \in {"delete", "update", "merge_insert"} /\ usable THEN JudgeDml(e, L, R, indexed)
+                    ELSE IF op \in {"delete", "update", "merge_insert"} /\ usable /\ "in_place" \notin DOMAIN st
+                    THEN JudgeDml(e, L, R, indexed)
                     ELSE {}
            names1 == IF op \in {"query", "take", "take_probe", "copy_reread", "tag", "cleanup", "age_files", "begin_append"} THEN (IF e.latest # L THEN {"FailedHasNoEffect"} ELSE {})
                      ELSE IF op = "reread"
@@ -513,7 +538,12 @@ Step(e) ==
            names == names1 \cup names2 \cup {pr[1] : pr \in {x \in pairs : x[1] = "DmlMatchesSqlModel"}}
            stale == rv # 0 /\ rv < Lv /\ op \in {"append","delete","update","merge_insert","compact"}
        IN /\ bad' = AddBad2(names1 \cup names2, pairs, e)
-          /\ obs' = IF usable /\ P.v \notin DOMAIN obs THEN obs @@ (P.v :> P) ELSE obs
+          \* versions a cleanup removed are forgotten (they can no longer be read or restored)
+          /\ obs' = IF op = "cleanup" /\ "rereads" \in DOMAIN e.extra
+                    THEN LET rr == e.extra.rereads
+                             gone == {rr[i][1] : i \in {j \in 1..Len(rr) : IsErr(rr[j][2])}} \ {Lv}
+                         IN [v \in (DOMAIN obs) \ gone |-> obs[v]]
+                    ELSE IF usable /\ P.v \notin DOMAIN obs THEN obs @@ (P.v :> P) ELSE obs
           /\ hvT' = e.handles
           \* re-synchronise the ghosts with the observation after a violation so it is reported once
           /\ serial' = IF usable /\ names # {} THEN PLogical(P) ELSE serial2
